@@ -107,6 +107,15 @@ func captureHandshakeMessages() (gmMsgs, tlsMsgs [][]byte) {
 	tc.Certificates = []gmtls.Certificate{p.RSAClient.TLS}
 	ts := tlsx.TLSServer(p, p.RSASrv, "c18ts")
 	ts.ClientAuth = gmtls.RequireAnyClientCert
+	// a hello pair that carries the optional extensions too (ALPN with several entries, tickets, SCT / OCSP requests
+	// and stapled answers), so that their list parsers have valid seeds
+	tc.NextProtos, ts.NextProtos = []string{"h2", "http/1.1", "x"}, []string{"http/1.1", "h2"}
+	tc.ClientSessionCache = gmtls.NewLRUClientSessionCache(2)
+	ts.ClientCAs = p.RootsAll
+	stapled := p.RSASrv.TLS
+	stapled.OCSPStaple = []byte("ocsp staple for the seed corpus")
+	stapled.SignedCertificateTimestamps = [][]byte{[]byte("sct one"), []byte("sct number two")}
+	ts.Certificates = []gmtls.Certificate{stapled}
 	r = tlsx.Run(tc, ts, tlsx.Script{NoData: true})
 	if r.Client.HSErr != nil || r.Server.HSErr != nil {
 		panic(fmt.Sprintf("seed TLS handshake failed: %s", r.Describe()))
